@@ -183,8 +183,12 @@ def dominating_guards(site_node: ast.AST) -> List[Tuple[str, bool]]:
         if isinstance(a, ast.If):
             if any(child is s for s in a.body):
                 out.append((norm(a.test), True))
+                if isinstance(a.test, ast.BoolOp) and isinstance(a.test.op, ast.And):
+                    out.extend((norm(v), True) for v in a.test.values)
             elif any(child is s for s in a.orelse):
                 out.append((norm(a.test), False))
+                if isinstance(a.test, ast.BoolOp) and isinstance(a.test.op, ast.Or):
+                    out.extend((norm(v), False) for v in a.test.values)
         if isinstance(a, ast.IfExp):
             if child is a.body:
                 out.append((norm(a.test), True))
